@@ -52,11 +52,12 @@ type HistCase struct {
 
 // Input is one self-contained case.
 type Input struct {
-	Op   string    `json:"op"` // arg | cb | ret | hist
-	Arg  *ArgCase  `json:"arg,omitempty"`
-	CB   *CBCase   `json:"cb,omitempty"`
-	Ret  *RetCase  `json:"ret,omitempty"`
-	Hist *HistCase `json:"hist,omitempty"`
+	Op    string     `json:"op"` // arg | goarg | cb | ret | hist
+	Arg   *ArgCase   `json:"arg,omitempty"`
+	GoArg *GoArgCase `json:"goarg,omitempty"`
+	CB    *CBCase    `json:"cb,omitempty"`
+	Ret   *RetCase   `json:"ret,omitempty"`
+	Hist  *HistCase  `json:"hist,omitempty"`
 }
 
 var numericTypes = []string{"int", "int8", "int16", "int32", "int64", "uint", "uint8", "uint16", "uint32", "uint64", "float32", "float64"}
